@@ -354,6 +354,8 @@ func (e *Exec) extBuiltinC(st *State, c *ssa.CallCommon, fn *ssa.Function, key s
 	case "fmt.Printf", "fmt.Println", "fmt.Fprintf":
 		e.trusted("D1: fmt.Printf debug output has no effect on program state")
 		return e.freshOf(st, "printf", sig.Results()), true
+	case "sort.Slice":
+		return e.sortSlice(st, args, where), true
 	case "regexp.MustCompile":
 		r := e.allocRef(st, "regexp")
 		if c != nil {
@@ -439,4 +441,88 @@ func (e *Exec) appendInPlace(fr *frame, st *State, c *ssa.CallCommon, sl *types.
 		r = e.smt.define("appended", r)
 	}
 	return r
+}
+
+// sortSlice models sort.Slice(x, less): afterwards the elements are a permutation of the elements
+// before (two mutually inverse index maps) and no later element is `less` than an earlier one.  The
+// closure is evaluated symbolically on the new contents.  (Assumed: D6.)
+func (e *Exec) sortSlice(st *State, args []Value, where string) Value {
+	e.trusted("D6: sort.Slice leaves a permutation of the slice that is ordered by the given less function")
+	bt, ok := args[0].(Term)
+	var bi boxed
+	found := false
+	if ok {
+		key := bt.S
+		for i := 0; i < 8; i++ {
+			if b, ok := e.boxInfo[key]; ok {
+				bi, found = b, true
+				break
+			}
+			nx, ok := e.smt.alias[key]
+			if !ok {
+				break
+			}
+			key = nx
+		}
+	}
+	sl, isSl := (types.Type)(nil), false
+	if found {
+		_, isSl = bi.t.Underlying().(*types.Slice)
+		sl = bi.t
+	}
+	if !found || !isSl {
+		e.unsupported("sort.Slice on a value whose slice cannot be identified at %s", where)
+		e.havocAllHeap(st)
+		return &Tuple{}
+	}
+	s := e.asTerm(st, bi.v, sl)
+	et := sl.Underlying().(*types.Slice).Elem()
+	if _, isStruct := et.Underlying().(*types.Struct); isStruct {
+		e.unsupported("sort.Slice on a slice of structs at %s", where)
+		e.havocAllHeap(st)
+		return &Tuple{}
+	}
+	name, srt := e.ti.elemComp(et, nil)
+	as := arraySort(SInt, srt)
+	H := e.heapComp(st, name, SInt, arraySort(SInt, as))
+	oldA := e.smt.define("sortold", tSelect(H, slArr(s), as))
+	newA := e.smt.fresh("sorted", as)
+	e.setHeap(st, name, tStore(H, slArr(s), newA))
+	perm := e.smt.freshName("perm")
+	inv := e.smt.freshName("perminv")
+	e.smt.declareFun(perm, []string{SInt}, SInt)
+	e.smt.declareFun(inv, []string{SInt}, SInt)
+	off, ln := slOff(s).S, slLen(s).S
+	e.assume(st, Term{fmt.Sprintf("(forall ((i Int)) (! (=> (and (<= 0 i) (< i %s)) (and (<= 0 (%s i)) (< (%s i) %s) (= (%s (%s i)) i) (= (select %s (+ %s i)) (select %s (+ %s (%s i)))))) :pattern ((select %s (+ %s i))) :pattern ((%s i))))",
+		ln, perm, perm, ln, inv, perm, newA.S, off, oldA.S, off, perm, newA.S, off, perm), SBool})
+	e.assume(st, Term{fmt.Sprintf("(forall ((j Int)) (! (=> (and (<= 0 j) (< j %s)) (and (<= 0 (%s j)) (< (%s j) %s) (= (%s (%s j)) j) (= (select %s (+ %s j)) (select %s (+ %s (%s j)))))) :pattern ((select %s (+ %s j))) :pattern ((%s j))))",
+		ln, inv, inv, ln, perm, inv, oldA.S, off, newA.S, off, inv, oldA.S, off, inv), SBool})
+	e.assume(st, Term{fmt.Sprintf("(forall ((a Int)) (! (=> (or (< a %s) (>= a (+ %s %s))) (= (select %s a) (select %s a))) :pattern ((select %s a))))", off, off, ln, newA.S, oldA.S, newA.S), SBool})
+	// order: for i < j, not less(j, i)
+	var fn *ssa.Function
+	var bindings []Value
+	switch x := args[1].(type) {
+	case *Closure:
+		fn, bindings = x.Fn, x.Bindings
+	case *FuncVal:
+		fn = x.Fn
+	}
+	if fn == nil {
+		e.unsupported("sort.Slice with a non-literal less function at %s", where)
+		return &Tuple{}
+	}
+	i := Term{"si!i", SInt}
+	j := Term{"si!j", SInt}
+	e.quant++
+	e.spec++
+	cp := st.clone()
+	cp.pc = tAnd(tLe(tInt(0), i), tLt(i, j), tLt(j, slLen(s)))
+	rs, out := e.runInline(fn, []Value{j, i}, bindings, cp, nil)
+	e.spec--
+	e.quant--
+	if out != nil && len(rs) == 1 {
+		lt := rs[0].(Term)
+		e.assume(st, Term{fmt.Sprintf("(forall ((si!i Int) (si!j Int)) (! (=> (and (<= 0 si!i) (< si!i si!j) (< si!j %s)) (not %s)) :pattern ((select %s (+ %s si!i)) (select %s (+ %s si!j)))))", ln, lt.S, newA.S, off, newA.S, off), SBool})
+	}
+	return &Tuple{}
 }
